@@ -118,6 +118,13 @@ StatsTruthful ==
                /\ stats.meta = al.mTot
                /\ stats.metaUsed = al.mTot - Cardinality(al.mFree)
 
+\* C11: a bounded file on which no transaction ever enabled the overflow area never extends
+\* beyond its maximum size (stats.fsize: current extent of the backing file, stats.maxb: the
+\* configured maximum size, both in bytes)
+ExtentBound == (Bounded /\ ~stats.ovf) => stats.fsize <= stats.maxb
+
+TypeTrivial == lk.sh >= 0
+
 \* the in-memory header agrees with the allocator and the model
 HeaderAgrees ==
   Quiescent => /\ hdr.root = cm.root
